@@ -3,7 +3,7 @@
    the plain and compact entry records.  The walk over the enclosing chunks and the listings built from the entries are
    checked by the oracle on generated tables; reference resolution is C29, locales are C30. *)
 From Coq Require Import ZArith List Bool.
-Require Import V.Lib.Val V.Lib.Result V.Lib.Struct V.Axml.PoolModel V.Axml.ArscTypeModel V.Axml.ArscTypeProofs V.Axml.ArscComplex.
+Require Import V.Lib.Val V.Lib.Result V.Lib.Struct V.Axml.PoolModel V.Axml.ArscTypeModel V.Axml.ArscTypeProofs V.Axml.ArscComplex V.Axml.PoolProofs V.Axml.ArscTypeChunk V.Axml.ArscTableModel V.Axml.ArscTableProofs.
 Require V.Axml.ArscTableModel.   (* the stream table-walk of tools/props/c28.py evaluates the model of the walk over the table *)
 Import ListNotations.
 Open Scope Z_scope.
@@ -50,3 +50,36 @@ Example C28_nonvacuous :
   read_offsets 3 2 0 3 2130771968 (flat_map enc16 [Some 0; None; Some 16]) = Ok [(0, 2130771968); (16, 2130771970)] /\
   Forall ok16 [Some 0; None; Some 16].
 Proof. repeat split; try reflexivity. repeat constructor; cbn; try reflexivity; try discriminate. Qed.
+
+(* ---- whole chunks, packages, tables ---- *)
+(* a whole type chunk - header, configuration of 52 bytes or more, dense offset array, the records of the existing entries
+   (plain, compact, complex) one after the other - standing anywhere in a file is read back as its id, its entry count and
+   exactly its entries, each with the resource id package << 24 | type << 16 | index *)
+Theorem C28_type_chunk_is_read_back : forall pre tid S tail slots rest pkg,
+  52 <= S < 65516 -> len tail = S - 4 -> Forall wf_slot slots -> type_chunk_size (b32 S ++ tail) slots < 4294967295 ->
+  parse_type_chunk (pre ++ type_chunk_bytes tid (b32 S ++ tail) slots ++ rest) (len pre) pkg =
+  Ok {| t_id := tid; t_flags := 0; t_count := Z.of_nat (length slots); t_entries := expected (pkg * 16777216 + tid * 65536) 0 slots |}.
+Proof. exact type_chunk_exact. Qed.
+Print Assumptions C28_type_chunk_is_read_back.
+(* the chunks of a package - any sequence of type specs and types - are walked in order and deliver exactly the types *)
+Theorem C28_package_chunks_are_walked : forall tpool pkg cs pre rest acc fuel,
+  Forall (wf_pchunk tpool) cs -> (length cs < fuel)%nat ->
+  package_chunks fuel (pre ++ chunks_bytes cs ++ rest) tpool (len pre) (len pre + len (chunks_bytes cs)) pkg acc = Ok (acc ++ types_of pkg cs).
+Proof. exact package_chunks_exact. Qed.
+Print Assumptions C28_package_chunks_are_walked.
+(* the whole file: table header, package count, main string pool, a package with its header, its type and key string pools
+   (any strings, either encoding) and any sequence of type specs and types: parse_table returns that package, its name, and
+   exactly the encoded types with exactly the encoded entries *)
+Theorem C28_table_is_read_back : forall mu mss mpad d,
+  wf_pkg d -> pool_bound mu mss -> 12 + pool_size mu mss mpad + pkg_size d < 4294967296 ->
+  parse_table (table_bytes mu mss mpad d) =
+  Ok [{| pk_id := d_id d; pk_name := name_units (d_name d); pk_types := types_of (d_id d mod 256) (d_chunks d) |}].
+Proof. exact table_exact. Qed.
+Print Assumptions C28_table_is_read_back.
+Example C28_table_nonvacuous :
+  wf_pkg ex_desc /\
+  parse_table (table_bytes true [[104; 101; 108; 108; 111]] [0; 0] ex_desc) =
+  Ok [{| pk_id := 127; pk_name := [97; 98];
+         pk_types := [{| t_id := 1; t_flags := 0; t_count := 2;
+                         t_entries := [{| e_id := 2130771968; e_size := 8; e_flags := 0; e_index := 0; e_payload := Plain 3 0 |}] |}] |}].
+Proof. exact table_example. Qed.
